@@ -214,6 +214,9 @@ def run():
         if not (json.load(open(stp)).get("mismatches")):
             raise vf.NoVerdict("binding self-test failed: a behaviour with a perturbed expected TokenCache was accepted")
         # 5. F: single-byte mutations judged by the contract
+        if not os.path.exists(mout) and chk.cands:
+            chk.notes.append("mutation stage produced no log; reporting the replay violations only")
+            return chk.finish()
         if not os.path.exists(mout):
             raise vf.NoVerdict("mutation run produced no log (rc=%d)\n%s\n%s" % (pmut.returncode, pmut.stdout[-3000:], pmut.stderr[-3000:]))
         recs = vf.read_ndjson(mout)
